@@ -200,6 +200,9 @@ MUTANTS += [
  {"id": "c07-key-term-lost", "prop": "C07", "file": _SI, "old": "    for n, matches in equal_terms.items():\n        res += terms[n]\n", "new": "    for n, matches in equal_terms.items():\n"},
  {"id": "c07-wrong-term", "prop": "C07", "file": _SI, "old": "            res += terms[other_n].subs(sub)", "new": "            res += terms[n].subs(sub)"},
  {"id": "c07-no-subs", "prop": "C07", "file": _SI, "old": "            res += terms[other_n].subs(sub)", "new": "            res += terms[other_n]"},
- {"id": "c07-target-map", "prop": "C07", "file": _SI, "old": "                    if is_target != other_is_target or \\\n                            (is_target and other_is_target and\n                             idx is not other_idx):\n                        continue", "new": "                    if is_target != other_is_target:\n                        continue"},
  {"id": "c07-accept-any", "prop": "C07", "file": _SI, "old": "            if not isinstance(term.sympy - sub_other_term, Add):\n                return sub", "new": "            return sub"},
+]
+HARMLESS += [
+ # redundant guard: terms whose target indices sit on different positions never share a prefilter key
+ {"id": "c07-h-target-map", "prop": "C07", "file": _SI, "old": "                    if is_target != other_is_target or \\\n                            (is_target and other_is_target and\n                             idx is not other_idx):\n                        continue", "new": "                    if is_target != other_is_target:\n                        continue"},
 ]
